@@ -19,6 +19,7 @@ func checkC18(c *Ctx, r *Report) {
 	r.Assumptions = []string{"Verify's input has at least header size (12 octets), as the property states; constant offsets below 12 are not checked"}
 	c18R1(c, r)
 	c18R2(c, r)
+	signerNotNarrowed(c, r, "C18.R2.signer-not-narrowed")
 	c18R3(c, r)
 	c18R4(c, r)
 	c17R6as(c, r, "C18.R5.rsa-limits")
